@@ -249,6 +249,24 @@ def check_props(prop):
     return res
 
 
+def coqchk_props(prop):
+    """Re-check props/<prop>.vo and everything it depends on with the independent checker; returns the
+    report's axiom / type-in-type / unsafe-fixpoint / assumed-positivity sections."""
+    rc, out = run(["timeout", "3000", "coqchk", "-silent", "-o", "-Q", "model", "MP.Model", "-Q", "proofs", "MP.Proofs",
+                   "-Q", "props", "MP.Props", f"MP.Props.{prop}"], cwd=COQ, timeout=3100)
+    if rc != 0:
+        raise MachineryError("coqchk failed on " + prop + ":\n" + out[-2000:])
+    rep = {}
+    for key, pat in (("axioms", r"\* Axioms:(.*?)\n\s*\n"), ("type_in_type", r"type-in-type:(.*?)\n\s*\n"),
+                     ("unsafe_fixpoints", r"unsafe \(co\)fixpoints:(.*?)\n\s*\n"), ("assumed_positivity", r"positivity is assumed:(.*?)(\n\s*\n|$)")):
+        m = re.search(pat, out, flags=re.S)
+        rep[key] = (m.group(1).strip() if m else "?")
+    bad = {k: v for k, v in rep.items() if v != "<none>"}
+    if bad:
+        raise MachineryError(f"coqchk reports for {prop}: {bad}")
+    return rep
+
+
 # ---------------------------------------------------------------- traces
 def trace_dir(prop):
     d = os.path.join(CACHE, "traces", prop)
